@@ -1243,6 +1243,19 @@ def dtype_leg(ctx):
                         ctx.hist("dtype", f"{a}<-{b}:{'safe' if safe else 'same_kind' if same_kind else 'not-castable'}:"
                                           f"{'accepted' if acc else 'refused'}")
                         report(ops, r["failures"], {"dtype": {"template": a, "appended": b, "collection": coll}})
+        # a later session replaces the template by one of a narrower dtype while the old frames are kept
+        for a, b in [("complex128", "float64"), ("float64", "float32"), ("int64", "int32"), ("complex64", "float32")]:
+            recipe = {"grid": "u3", "kind": "scalar", "label": "d"}
+            ops = [{"op": "newField", "recipe": {**recipe, "dtype": a}, **gen.field_vals(a, 3, wide=True)},
+                   {"op": "newField", "recipe": {**recipe, "dtype": b}, **gen.field_vals(b, 3, wide=True)},
+                   {"op": "newStore", "mode": "append"}, {"op": "start", "sid": 0, "fid": 0},
+                   {"op": "append", "sid": 0, "fid": 0, "t": 0.0}, {"op": "end", "sid": 0},
+                   {"op": "start", "sid": 0, "fid": 1}, {"op": "append", "sid": 0, "fid": 1, "t": 1.0},
+                   {"op": "read", "sid": 0, "i": 0}, {"op": "items", "sid": 0, "how": "iter"}]
+            r = exec_ops(ops)
+            ctx.monitor_evals += r["monitor_evals"]
+            ctx.count({"dtype-template-change": [a, b], "ops": ops}, nontrivial=True, leg="dtype")
+            report(ops, r["failures"], {"dtype_template_change": [a, b]})
         for _ in range(ctx.budget(150, 1500)):
             k = rng.randint(2, 3)
             g = Gen(rng, ctx.hist, rng.randint(8, 40), rng.choice([0.0, 0.1]), dtypes=rng.sample(DTYPES, k)).generate()
